@@ -24,10 +24,24 @@ class NS(types.SimpleNamespace):
 
 
 
+def freeze(x):
+    """hashable, comparable form of an index / value: lists and tuples -> tuples, stand-in objects -> their name or index, slices -> ':'"""
+    if isinstance(x, (list, tuple)):
+        return tuple(freeze(v) for v in x)
+    if isinstance(x, slice):
+        return ':' if x == slice(None) else ('slice', freeze(x.start), freeze(x.stop), freeze(x.step))
+    if isinstance(x, types.SimpleNamespace):
+        return getattr(x, 'tag', None) or f'obj{getattr(x, "index", "?")}'
+    return x
+
+
 class Rec(dict):
-    """Array stand-in: item reads give 0, item stores are recorded (it is a dict keyed by the index tuple); attributes are set by the rule."""
+    """Array stand-in: item reads give 0, item stores are recorded (it is a dict keyed by the frozen index); attributes are set by the rule."""
     def __missing__(self, k):
         return 0
+
+    def put(self, k, v):
+        dict.__setitem__(self, freeze(k), freeze(v))
 
 _CALLS = {'len': len, 'min': min, 'max': max, 'sum': sum, 'int': int, 'abs': abs, 'any': any, 'all': all, 'bool': bool,
           'range': range, 'enumerate': enumerate, 'zip': zip, 'list': list, 'tuple': tuple, 'sorted': sorted, 'reversed': reversed,
@@ -56,9 +70,11 @@ def ev(e, env):
     if isinstance(e, ast.Subscript):
         b = ev(e.value, env)
         if isinstance(b, Rec):
-            return b[ev(e.slice, env)]
+            return b[freeze(ev(e.slice, env))]
         if b is None:
             raise TypeError("'NoneType' object is not subscriptable")
+        if type(b).__name__ == 'Match':
+            return b[ev(e.slice, env)]
         if not isinstance(b, (list, tuple, dict, str)):
             raise ModelError(f'minieval: subscript on {type(b).__name__}: {ast.unparse(e)}')
         if isinstance(e.slice, ast.Slice):
@@ -99,6 +115,11 @@ def ev(e, env):
         return True
     if isinstance(e, ast.IfExp):
         return ev(e.body, env) if ev(e.test, env) else ev(e.orelse, env)
+    if isinstance(e, ast.Slice):
+        return slice(None if e.lower is None else ev(e.lower, env), None if e.upper is None else ev(e.upper, env), None if e.step is None else ev(e.step, env))
+    if isinstance(e, ast.NamedExpr) and isinstance(e.target, ast.Name):
+        env[e.target.id] = ev(e.value, env)
+        return env[e.target.id]
     if isinstance(e, (ast.Tuple, ast.List)):
         r = []
         for x in e.elts:
@@ -107,6 +128,8 @@ def ev(e, env):
             else:
                 r.append(ev(x, env))
         return tuple(r) if isinstance(e, ast.Tuple) else r
+    if isinstance(e, ast.JoinedStr):
+        return '<f-string>'
     if isinstance(e, ast.Dict):
         return {ev(k, env): ev(v, env) for k, v in zip(e.keys, e.values)}
     if isinstance(e, ast.DictComp):
@@ -173,7 +196,7 @@ def ev(e, env):
     if isinstance(e, ast.Call) and isinstance(e.func, ast.Name) and e.func.id in _CALLS and not e.keywords:
         return _CALLS[e.func.id](*[ev(a, env) for a in e.args])
     if isinstance(e, ast.Call) and isinstance(e.func, ast.Attribute) and isinstance(e.func.value, ast.Name) and e.func.value.id == 're' \
-            and e.func.attr in ('sub', 'split', 'match', 'fullmatch', 'search', 'findall') and not e.keywords:
+            and e.func.attr in ('sub', 'split', 'match', 'fullmatch', 'search', 'findall', 'compile') and not e.keywords:
         import re as _re
         return getattr(_re, e.func.attr)(*[ev(a, env) for a in e.args])   # the regular-expression engine applied to constant data
     if isinstance(e, ast.Call) and isinstance(e.func, ast.Attribute) and e.func.attr in (
@@ -182,6 +205,14 @@ def ev(e, env):
         b = ev(e.func.value, env)
         if isinstance(b, str):
             return getattr(b, e.func.attr)(*[ev(a, env) for a in e.args])
+    if isinstance(e, ast.Call) and isinstance(e.func, ast.Attribute) and e.func.attr in ('sub', 'split', 'match', 'fullmatch', 'search', 'findall') and not e.keywords:
+        import re as _re
+        b = ev(e.func.value, env)
+        if isinstance(b, _re.Pattern):        # a compiled constant pattern
+            return getattr(b, e.func.attr)(*[ev(a, env) for a in e.args])
+    if isinstance(e, ast.Call) and isinstance(e.func, ast.Name) and isinstance(env.get(e.func.id), LocalFn) and not e.keywords:
+        lf = env[e.func.id]
+        return call_function(lf.fdef, [ev(a, env) for a in e.args], lf.env)
     if isinstance(e, ast.Call) and isinstance(e.func, ast.Attribute) and not e.keywords:
         # a method of one of the rule's stand-in objects: the rule supplies a recording stub (marked _kv_stub)
         b = ev(e.func.value, env)
@@ -195,12 +226,29 @@ def bind(target, value, env):
         env[target.id] = value
     elif isinstance(target, (ast.Tuple, ast.List)):
         vals = list(value)
+        star = [k for k, t in enumerate(target.elts) if isinstance(t, ast.Starred)]
+        if len(star) == 1:
+            k = star[0]
+            after = len(target.elts) - k - 1
+            if len(vals) < len(target.elts) - 1:
+                raise ValueError('not enough values to unpack')
+            for t, v in zip(target.elts[:k], vals[:k]):
+                bind(t, v, env)
+            bind(target.elts[k].value, vals[k:len(vals) - after], env)
+            for t, v in zip(target.elts[k + 1:], vals[len(vals) - after:] if after else []):
+                bind(t, v, env)
+            return
         if len(vals) != len(target.elts):
-            raise ModelError('minieval: unpacking arity')
+            raise ValueError('unpacking arity')       # what the code itself would raise
         for t, v in zip(target.elts, vals):
             bind(t, v, env)
     else:
         raise ModelError(f'minieval: binding target {ast.unparse(target)}')
+
+
+class LocalFn:
+    def __init__(self, fdef, env):
+        self.fdef, self.env = fdef, env
 
 
 class Returned(Exception):
@@ -233,6 +281,16 @@ def run(stmts, env):
     for st in stmts:
         if isinstance(st, ast.Return):
             raise Returned(ev(st.value, env) if st.value is not None else None)
+        if isinstance(st, ast.FunctionDef):
+            env[st.name] = LocalFn(st, env)     # a local helper: a closure over the current environment
+            continue
+        if isinstance(st, ast.Expr) and isinstance(st.value, ast.Call) and isinstance(st.value.func, ast.Attribute) and isinstance(st.value.func.value, ast.Name) \
+                and st.value.func.value.id == 'log':
+            continue      # logging
+        if isinstance(st, ast.Assert):
+            if not ev(st.test, env):
+                raise AssertionError('assert')
+            continue
         if isinstance(st, ast.Expr) and isinstance(st.value, ast.Constant):
             continue
         if isinstance(st, ast.Expr) and isinstance(st.value, (ast.ListComp, ast.GeneratorExp)):
@@ -251,6 +309,11 @@ def run(stmts, env):
                 raise ModelError(f'minieval: {st.value.func.attr} on {type(recv).__name__}')
             getattr(recv, st.value.func.attr)(*[ev(a, env) for a in st.value.args])
             continue
+        if isinstance(st, ast.Assign) and len(st.targets) > 1 and all(isinstance(t, ast.Name) for t in st.targets):
+            v = ev(st.value, env)      # chained assignment a = b = value
+            for t in st.targets:
+                env[t.id] = v
+            continue
         if isinstance(st, ast.Assign) and len(st.targets) == 1 and isinstance(st.targets[0], ast.Attribute):
             base = ev(st.targets[0].value, env)
             if not isinstance(base, NS):
@@ -259,6 +322,9 @@ def run(stmts, env):
             continue
         if isinstance(st, ast.Assign) and len(st.targets) == 1 and isinstance(st.targets[0], ast.Subscript):
             base = ev(st.targets[0].value, env)
+            if isinstance(base, Rec):
+                base.put(ev(st.targets[0].slice, env), ev(st.value, env))
+                continue
             if not isinstance(base, (list, dict)):
                 raise ModelError('minieval: item store')
             base[ev(st.targets[0].slice, env)] = ev(st.value, env)
